@@ -43,6 +43,9 @@ def spec_report(name_len, p):
     return rest[a + 10:a + 14]
 
 
+DRAIN = ["fire retry", "fire timeout"] * 6 + ["disc"] + ["fire retry", "fire timeout"] * 2
+
+
 class C20(F.Spec):
     pid = "C20"
     lean_module = "SuplaVerif.Props.C20"
@@ -71,7 +74,7 @@ class C20(F.Spec):
                         p = struct.pack(">H", cut - 2) + p[2:]
                     yield F.Case("trunc-%s-%d-%d" % (nm.decode(), cut, fix),
                                  ["resolve " + nm.decode(), "connected 0", "reply " + (p.hex() or "-"), "disc"] +
-                                 ["fire retry", "fire timeout"] * 6, {"tags": ["kind:trunc"], "names": [len(nm)]})
+                                 DRAIN, {"tags": ["kind:trunc"], "names": [len(nm)]})
 
     def mk_reply(self, rng, name):
         k = rng.choice(["good", "good", "cname", "uncompressed", "rcode", "an0", "type", "class", "rdlen", "lenprefix",
@@ -156,9 +159,9 @@ class C20(F.Spec):
                     k, p = self.mk_reply(rng, b"supla.org")
                     ops.append("reply " + (p.hex() or "-"))
                     tags.append("reply:" + k)
-            # drain: fire whatever is armed until quiet (bounded)
-            for _ in range(6):
-                ops += ["fire retry", "fire timeout"]
+            # drain: fire whatever is armed until quiet (bounded); then the disconnect callback of a connection the
+            # firmware closed itself arrives late (the SDK delivers it asynchronously), and the timers once more
+            ops += DRAIN
         return F.Case("gen%d" % i, ops, {"tags": tags, "names": names})
 
     def canon_impl(self, groups):
@@ -208,6 +211,9 @@ class C20(F.Spec):
                 exp = spec_report(cur_name_len, p)
                 if exp is not None:
                     last_reply_expect = exp
+            if not pending and any(x.startswith("CONNECT") for x in g):
+                fs.append(F.Finding("connect-after-completion", "the resolver connects to a server although no request is "
+                                    "pending, at op '%s'" % op[:40]))
             for cb in cbs:
                 if not pending:
                     fs.append(F.Finding("extra-callback", "callback without a pending request at op '%s'" % op[:40]))
